@@ -176,11 +176,55 @@ func (x *Exec) havocAll(st *State, keepTypes ...string) {
 	keep, hasS := st.heap["S:byte"]
 	kept := HeapView{}
 	for _, tn := range keepTypes {
+		if strings.HasPrefix(tn, "elems:") {
+			en := strings.TrimPrefix(tn, "elems:")
+			ep := "E:" + x.fn.Pkg.Pkg.Name() + "." + en
+			if strings.HasPrefix(en, "*") {
+				ep = "E:*" + x.fn.Pkg.Pkg.Name() + "." + en[1:]
+			}
+			keyMu.Lock()
+			var ks []string
+			for k := range x.prog.keySorts {
+				if k == ep || strings.HasPrefix(k, ep+"#") || strings.HasPrefix(k, ep+".") {
+					ks = append(ks, k)
+				}
+			}
+			keyMu.Unlock()
+			sort.Strings(ks)
+			for _, k := range ks {
+				srt := x.sortOfKey(k)
+				x.registerKey(k, srt)
+				kept[k] = x.heapGet(st.heap, k, srt)
+			}
+			continue
+		}
+		if strings.HasPrefix(tn, "map:") {
+			mp := "M:" + x.fn.Pkg.Pkg.Name() + "." + strings.TrimPrefix(tn, "map:")
+			keyMu.Lock()
+			var ks []string
+			for k := range x.prog.keySorts {
+				if strings.HasPrefix(k, mp+"#") || strings.HasPrefix(k, mp+".") {
+					ks = append(ks, k)
+				}
+			}
+			keyMu.Unlock()
+			sort.Strings(ks)
+			for _, k := range ks {
+				srt := x.sortOfKey(k)
+				x.registerKey(k, srt)
+				kept[k] = x.heapGet(st.heap, k, srt)
+			}
+			continue
+		}
 		prefix := "F:" + x.fn.Pkg.Pkg.Name() + "." + tn + "."
+		if strings.Contains(tn, ".") {
+			// one field: its leaves are "<prefix>" itself, "<prefix>#id", "<prefix>.sub" ...
+			prefix = "F:" + x.fn.Pkg.Pkg.Name() + "." + tn
+		}
 		keyMu.Lock()
 		var ks []string
 		for k := range x.prog.keySorts {
-			if strings.HasPrefix(k, prefix) {
+			if strings.HasPrefix(k, prefix) && (strings.HasSuffix(prefix, ".") || len(k) == len(prefix) || k[len(prefix)] == '#' || k[len(prefix)] == '.') {
 				ks = append(ks, k)
 			}
 		}
